@@ -637,6 +637,48 @@ def check_loopdata(prog, rep):
     rep.extra["indexed_store_loops"] = n
 
 
+def check_derived(prog, rep):
+    """R8: a cached field computed by a `_calc_<name>` helper is computed by the helper of its own name (sibling helpers exist for each field)"""
+    n = 0
+    for m in prog.modules.values():
+        if not m.name.startswith(PROB):
+            continue
+        for c in m.classes.values():
+            funcs = list(c.methods.values()) + [g for pr in c.own_props.values() for g in (pr.getter, pr.setter) if g is not None]
+            for f in funcs:
+                for st in walk_no_nested(f.node):
+                    if not (isinstance(st, ast.Assign) and len(st.targets) == 1 and isinstance(st.value, ast.Call) and isinstance(st.value.func, ast.Attribute)):
+                        continue
+                    t = st.targets[0]
+                    fld = field_of(t) if isinstance(t, ast.Attribute) else None
+                    helper = st.value.func.attr
+                    if fld is None or not helper.startswith("_calc_") or dump(st.value.func.value) not in ("self", "cls"):
+                        continue
+                    a, b = fld.lstrip("_"), helper[len("_calc_"):]
+                    n += 1
+                    rep.saw(f)
+                    construct = "%s: self._%s" % (f.qualname, a)
+                    own = prog.lookup_method(c, "_calc_" + a) if prog.mro(c) is not None else c.methods.get("_calc_" + a)
+                    if a == b:
+                        rep.ok("R8-derived", construct, "computed by its own helper _calc_%s" % a)
+                    elif own is not None:
+                        rep.violate("R8-derived", construct, "the cached field _%s is computed with _calc_%s although _calc_%s exists: the field holds the other quantity" % (a, b, a),
+                                    where(f, st), "self._calc_%s(...)" % a, "self._calc_%s(...)" % b)
+                    else:
+                        rep.ok("R8-derived", construct, "computed by _calc_%s (no helper named after the field)" % b)
+    rep.floor("R8-derived", 6)
+
+
+def check_subset_frequencies(prog, rep, tier):
+    """R9: allele frequencies of a selected subset that are compared with 0 / 1 are exact at fixation (shared taint rule of C09)"""
+    from rules import c09
+    allf = list(prog.all_functions())
+    sel = [f for f in allf if f.module.name.startswith("pybrops.breed.prot.sel")]
+    funcs = allf if tier == "thorough" else [f for f in sel if f.module.name.startswith(PROB)]
+    c09.check_exactness(prog, rep, tier, rule="R9-exact-frequency", funcs=funcs, sink_filter=lambda f: f.module.name.startswith("pybrops.breed.prot.sel"))
+    rep.floor("R9-exact-frequency", 4)
+
+
 def run(prog, rep, tier):
     rep.explanation = ("Every latentfn of the problem classes is normalised to an algebraic normal form with the contribution idioms canonicalised, then compared with "
                        "its siblings (the four decision encodings of one criterion) and with the criterion's reference term; evalfn/_evaluate wiring, Cholesky "
@@ -651,3 +693,5 @@ def run(prog, rep, tier):
     check_factories(prog, rep)
     check_chunks(prog, rep)
     check_loopdata(prog, rep)
+    check_derived(prog, rep)
+    check_subset_frequencies(prog, rep, tier)
